@@ -24,13 +24,16 @@ type ConcSpec struct {
 	APIGet      bool
 	Kick        bool // the pre-attached publisher and reader are kicked (their sessions then detach)
 	CloseAtOnce bool // the manager is shut down concurrently with everything else
+	Hooks       bool // observe the hook executions (C20)
+	Audio       bool // the clients use one G.711 track (always-available paths of the harnesses are configured with it)
 }
 
 // ConcBody builds the body.
 func ConcBody(sp ConcSpec) func() {
 	return func() {
 		Live = nil
-		pm := New(sp.Base, AllowAll{}, false)
+		Audio = sp.Audio
+		pm := New(sp.Base, AllowAll{}, sp.Hooks)
 		Live = pm
 		desc, m, f := NewDesc()
 		var dones []chan struct{}
